@@ -48,14 +48,18 @@ def proofs(tier, workroot):
                        ('utf8_byte_ignored', r'&& options::utf8_byte\(\)\)\)', '&& false))', 'postcondition'),
                        ('check_not_counted', r'cpd.check_fail_cnt\+\+;', ';', 'postcondition'),
                        ('pass_after_output', r'   if \(parsed_file != nullptr\)\n   \{\n      FILE \*p_file;', '   space_text();\n   if (parsed_file != nullptr)\n   {\n      FILE *p_file;', 'postcondition')])
-    return [p]
+    sys.path.insert(0, os.path.join(here, '..', 'shared'))
+    import nlguard_proofs
+    # K2: brace removal (convert_brace) changes only the brace chunk and deletes the adjacent newline only under the SafeToDeleteNl() guard
+    return [p] + [q for q in nlguard_proofs.all_proofs() if q.name in ('SafeToDeleteNl', 'convert_brace')]
 
 
 EXPLANATION = ('Kernel of C04 (and C06-K4, C09-K6, C12-K3): the real driver uncrustify_file() with every pass replaced by a generated ghost stub: a code-modifying pass '
                '(rewrite_infinite_loops, remove_extra_semicolons, remove_extra_returns, change_int_types, remove_duplicate_include, pawn_scrub_vsemi, sort_imports, '
                'add_long_closebrace_comment, add_long_preprocessor_conditional_block_comment) runs only if the option documented to request it is set; with all of '
                'them at default none runs. output_text runs exactly once and last; an embedded NUL is refused first; encoding/BOM policy; check accounting.')
-K = ['K1 uncrustify_file: gating of the nine code-modifying passes the driver calls', 'C06-K4 output once and last; embedded-NUL scan', 'C09-K6 encoding/BOM policy', 'C12-K3 check_fail_cnt']
+K = ['K2 convert_brace (brace -> virtual brace, used by every brace-removing option): only brace chunks are converted, at most the adjacent newline is deleted and only when SafeToDeleteNl() allows it (otherwise the statement would move into a // comment)',
+     'K1 uncrustify_file: gating of the nine code-modifying passes the driver calls', 'C06-K4 output once and last; embedded-NUL scan', 'C09-K6 encoding/BOM policy', 'C12-K3 check_fail_cnt']
 G = ['do_braces / do_parens* (called unconditionally; they gate internally on mod_full_brace_* / mod_paren_*, mod_case_brace, mod_move_case_*): NOT under contract yet',
      'what each pass does once it runs (brace pairing, can_remove_braces, sorting permutes whole lines, balanced brackets): NOT proved; the mod_full_brace_if=remove defect quoted in the property lives there and is NOT detectable by this kernel',
      'enum_cleanup (mod_enum_last_comma) runs inside tokenize_cleanup, outside the driver: not covered',
